@@ -61,3 +61,12 @@ m = {
 }
 json.dump(m, open(os.path.join(VERIF, "MANIFEST.json"), "w"), indent=1)
 print("checks:", [c["property_id"] for c in checks], "na:", [n["property_id"] for n in na])
+
+# validate against the schema (tooling venv has jsonschema); a failure here must stop the commit
+import subprocess as _sp
+_r = _sp.run(["python3-vt", "-c", "import json, jsonschema; jsonschema.validate(json.load(open('/verif/MANIFEST.json')), "
+              "json.load(open('/root/.vp/MANIFEST.schema.json'))); print('MANIFEST.json validates against the schema')"],
+             capture_output=True, text=True)
+print((_r.stdout + _r.stderr).strip()[-400:])
+if _r.returncode != 0:
+    raise SystemExit(1)
